@@ -15,11 +15,13 @@ ZRANGE orders by (score, member), MULTI/EXEC atomic.  Every round trip / transac
 Times are µs (as everywhere); Redis scores and `unix_time()` are whole seconds relative to the same epoch.
 -/
 import RepidModel.Sched
+import RepidModel.Generated.Config
 
 namespace Repid.Redis
 open Repid
 
-def prefetch : Nat := 10
+/-- `_RedisConsumer.PREFETCH_AMOUNT`, extracted from the live class on every run -/
+def prefetch : Nat := Config.redisPrefetch
 
 /-- last segment of a full queue name: `n` normal, `d` delayed, `dead` -/
 inductive Marker where
